@@ -21,7 +21,7 @@ ASSUMPTIONS = [
     'partition_iterator: partition_size >= 1; group_into_tensor_product_basis_sets: coefficients are 0 or dyadic with |c| >= 1e-8 (exact regime)',
 ]
 OPEN_STATEMENTS = [
-    'Every clause of the property is a theorem about the Model; outside the theorems: tpb_groups_spec is proved under the hypothesis PermsCover (every shuffle lists each current basis at least once — true for genuine permutations); that numpy.random.RandomState.shuffle produces a permutation is part of the trusted base (the recorded shuffles are checked to reproduce the unpatched call).',
+    'Every clause of the property is a theorem about the Model; outside the theorems: tpb_groups_spec is proved under the hypothesis PermsCover (every shuffle lists each current basis at least once) and tpb_groups_spec_permutations derives it from the natural hypothesis that every recorded shuffle is a permutation of the current basis indices; that numpy.random.RandomState.shuffle produces a permutation is part of the trusted base (the recorded shuffles are checked to reproduce the unpatched call).',
     'binary_partition_iterator / partition_iterator with an explicit num_iterations = it: PROVED for every budget it >= 1 with n <= 2^it (binary_partition_explicit_spec, partition_iterator_explicit_spec), and a smaller budget yields a prefix of a larger one (binary_partition_prefix); budgets with 2^it < n do not split every pair (no statement; correspondence only).',
     'helper generators: _gen_partitions (gen_partitions_spec: contiguous balanced partitions), _parallel_iter (parallel_iter_spec: exactly the non-empty rows), _get_padding (get_padding_spec) and _asynchronous_iter (async_iter_covers) have theorems; _gen_pairings_between_partitions (gen_pairings_between_spec: non-empty, perfect matchings of both parts, every in-half pair co-scheduled with every cross pair of the complementary halves) and _loop_iterator (loop_iterator_spec) have theorems too; pair_within schedules every pair EXACTLY once (pair_within_exactly_once), pair_between every cross pair exactly once (pair_between_spec).',
 ]
